@@ -216,7 +216,16 @@ impl Processor {
             tokio::select! {
                 fsm_res = session.tick() => {
                     match fsm_res {
-                        Ok(()) => { },
+                        Ok(()) => {
+                            // The FSM can let go of the connection on its
+                            // own (FSM error, Disconnect command) without
+                            // sending ConnectionLost. Nothing will come from
+                            // this session anymore: handle what it queued
+                            // and leave the loop.
+                            if session.connected_addr().is_none() {
+                                rx_sess.close();
+                            }
+                        },
                         Err(e) => {
                             error!("error from fsm: {e}");
                             break;
